@@ -176,17 +176,29 @@ def position_kinds(n, npo, nko):
 
 
 def build_function(case, order, checker_name, spelling, category="Shaped", array_type=np.ndarray, fname="fn", kinds=None):
-    """Compile and decorate `def fn(<params in order>) -> R: return __ret`."""
+    """Compile and decorate `def fn(<params in order>) -> R: return __ret`.
+
+    case["int_param"] = [name, value]: a leading plain-int parameter named like an axis (it never is the axis);
+    case["ko_defaults"] = positions (in the call order) of keyword-only parameters that carry a default -- legal anywhere
+    in the keyword-only group, the argument is passed explicitly anyway."""
     cat = getattr(jaxtyping, category)
     ns = {"__ret": None}
     parts = []
     kinds = kinds or ["pk"] * len(order)
+    if case.get("int_param"):
+        parts.append(f"{case['int_param'][0]}: int")
+        if kinds and kinds[0] == "ko" and False:
+            pass
     for pos, i in enumerate(order):
         p = case["params"][i]
         ns[f"A_{p['name']}"] = cat[array_type, spec_of(p)]
         if kinds[pos] == "ko" and (pos == 0 or kinds[pos - 1] != "ko"):
             parts.append("*")
-        parts.append(f"{p['name']}: A_{p['name']}")
+        dflt = ""
+        if kinds[pos] == "ko" and pos in case.get("ko_defaults", []):
+            ns[f"D_{p['name']}"] = np.zeros(tuple(p["shape"]))
+            dflt = f" = D_{p['name']}"
+        parts.append(f"{p['name']}: A_{p['name']}{dflt}")
         if kinds[pos] == "po" and (pos + 1 == len(order) or kinds[pos + 1] != "po"):
             parts.append("/")
     retstr = ""
@@ -209,6 +221,16 @@ def build_function(case, order, checker_name, spelling, category="Shaped", array
     return fn, ns, src
 
 
+def build_plain_subclass_dataclass(case, order, checker_name):
+    """An undecorated dataclass and a plain (non-@dataclass) subclass of it that is jaxtyped: it has no __init__ of its
+    own, the inherited generated one must be checked all the same."""
+    fields = [(case["params"][i]["name"], Shaped[np.ndarray, spec_of(case["params"][i])]) for i in order]
+    Base = dataclasses.make_dataclass("DPlainBase", fields)
+    Base.__module__ = "vf_generated"
+    Sub = type("DPlainSub", (Base,), {"__module__": "vf_generated"})
+    return jaxtyped(typechecker=checker(checker_name))(Sub)
+
+
 def build_dataclass(case, order, checker_name, split=None):
     """split=k: a jaxtyped base dataclass with the first k fields and a jaxtyped subclass adding the rest."""
     cat = Shaped
@@ -229,12 +251,14 @@ def build_dataclass(case, order, checker_name, split=None):
     return jaxtyped(typechecker=tc)(D)
 
 
-def call_args(case, order, style, make=lambda shape: np.zeros(shape), kinds=None):
+def call_args(case, order, style, make=lambda shape: np.zeros(shape), kinds=None, with_int=True):
     ps = [case["params"][i] for i in order]
     vals = [make(tuple(p["shape"])) for p in ps]
     kinds = kinds or ["pk"] * len(ps)
     h = (len(ps) + 1) // 2
     args, kwargs = [], {}
+    if case.get("int_param") and with_int:
+        args.append(case["int_param"][1])  # the leading int parameter, positionally
     for pos, (p, v) in enumerate(zip(ps, vals)):
         by_kw = {"pos": False, "kw": True}.get(style, pos >= h)
         if kinds[pos] == "po":
